@@ -18,6 +18,10 @@
 (***************************************************************************)
 EXTENDS Contracts, Json, IOUtils
 
+CONSTANT Stepwise   \* TRUE: evaluate the contracts after every source event (locates the
+                    \* first failing step); FALSE: once, on the complete logs (the causal
+                    \* indices in the contracts make the two equivalent for the verdict)
+
 Traces == JsonDeserialize(IOEnv.TRACE_FILE)
 
 VARIABLES tid, l, st
@@ -116,9 +120,10 @@ TraceStep ==
            nsteps == IF fs = 0 THEN Len(B0) ELSE fs - 1
        IN
        IF l < nsteps
-       THEN LET bad == Violations(Tr.pipe, Restrict(logs, NextOrd(B0, l + 1)), FALSE) IN
-            IF bad = {} THEN l' = l + 1 /\ UNCHANGED <<tid, st>>
-            ELSE Reject(l + 1, bad)
+       THEN IF ~Stepwise THEN l' = nsteps /\ UNCHANGED <<tid, st>>
+            ELSE LET bad == Violations(Tr.pipe, Restrict(logs, NextOrd(B0, l + 1)), FALSE) IN
+                 IF bad = {} THEN l' = l + 1 /\ UNCHANGED <<tid, st>>
+                 ELSE Reject(l + 1, bad)
        ELSE IF fs = 0
        THEN LET closed == Tr.end.t = "completed"
                 bad == Violations(Tr.pipe, logs, closed)
